@@ -403,6 +403,8 @@ RATIO_TOTAL = ("new_raw",           # plain constructor: stores numerator and de
 
 
 import re as _re
+# i64::wrapping_neg, u32::saturating_sub, ... (inherent or through num's Wrapping*/Saturating* traits)
+WRAP_OP = _re.compile(r"(?:num::<impl (i\d+|u\d+|isize|usize)>|<&?(i\d+|u\d+|isize|usize) as [^>]+>)::((?:wrapping|saturating|unchecked)_\w+)$")
 PRIM_OP = _re.compile(r"^<&?(i64|i32|u64|u32|usize|i128) as std::ops::(Add|Sub|Mul|Div|Rem|Neg)(?:<&?\1>)?>::(add|sub|mul|div|rem|neg)$")
 
 
@@ -466,6 +468,11 @@ def exact_arm_ops(fn, reg, rf=None):
         if pm:
             out.append(("%s:%s" % (pm.group(3), pm.group(1)), "unchecked primitive %s on %s through the reference operator impl "
                         "(overflow / zero divisor: panic or silent wrap)" % (pm.group(3).lower(), pm.group(1)), loc))
+            continue
+        wm = WRAP_OP.search(fa or "") or WRAP_OP.search(c or "")
+        if wm:
+            out.append(("%s:%s" % (wm.group(3), wm.group(1) or wm.group(2)), "%s on %s gives up the true value by definition (wraps / saturates / "
+                        "is undefined on overflow): an unchecked fixed-width operation under another name" % (wm.group(3), wm.group(1) or wm.group(2)), loc))
             continue
         m = _ratio_call(c, fa)
         if m is None:
